@@ -43,6 +43,9 @@ class AssignmentMap(dict):
     
     def __setitem__(self, key, val):
         dict.__setitem__(self, self.encode_item(key), val)
+
+    def __delitem__(self, key):
+        dict.__delitem__(self, self.encode_item(key))
     
     def __repr__(self):
         dictrepr = dict.__repr__(self)
